@@ -77,7 +77,8 @@ func (e *ErrSpec) WantMessage() string { return e.Build().Error() }
 // Step is one turn of a stream state.
 type Step struct {
 	// Act: emit | finish | error | panic | noemit | double | finishx (Finish on
-	// an exchange; the state returns Finish's error)
+	// an exchange; the state returns Finish's error) | emitpanic | emiterror
+	// (the turn emits its data batch and then panics / returns an error)
 	Act   string            `json:"a"`
 	Logs  []LogSpec         `json:"g,omitempty"`
 	Meta  map[string]string `json:"md,omitempty"`
@@ -103,6 +104,8 @@ type Script struct {
 	// "open" calls OpenSession (its error is returned), "use" fails with a
 	// ValueError when no session is bound, "close" closes the bound session.
 	Sess string `json:"sess,omitempty"`
+	// Dyn2: a dynamic stream picks its second run-time output schema.
+	Dyn2 bool `json:"d2,omitempty"`
 	// Tail: what a producer does after Turns are exhausted is always finish;
 	// what an exchange does after Turns are exhausted is emit.
 }
@@ -217,6 +220,7 @@ func GenStreamScript(t *simkern.Tape, nonce int64, kind string, o GenOpts) *Scri
 	s := &Script{Nonce: nonce, Outcome: "ok", Mode: kind, Pad: o.Pad}
 	s.Logs = GenLogs(t, 2, "init")
 	s.Header = t.Bool(1, 2)
+	s.Dyn2 = t.Bool(1, 2) // only read by the dynamic method
 	if o.MaxTurns <= 0 {
 		o.MaxTurns = 6
 	}
@@ -237,15 +241,15 @@ func GenStreamScript(t *simkern.Tape, nonce int64, kind string, o GenOpts) *Scri
 			}
 		}
 		if i == failAt {
-			acts := []string{"error", "panic", "noemit", "double"}
+			acts := []string{"error", "panic", "noemit", "double", "emitpanic", "emiterror"}
 			if kind == "exchange" {
 				acts = append(acts, "finishx")
 			}
 			st.Act = acts[t.Draw(len(acts))]
 			switch st.Act {
-			case "error":
+			case "error", "emiterror":
 				st.Err = GenErr(t, nonce)
-			case "panic":
+			case "panic", "emitpanic":
 				st.Panic = panicKinds[t.Draw(len(panicKinds))]
 			}
 		}
